@@ -125,7 +125,7 @@ func (g *G) strBody() string {
 	case 10:
 		return "max-age=3600, public"
 	case 11:
-		return "100%"
+		return "100%25"
 	case 12:
 		return "\t tab"
 	default:
@@ -207,11 +207,37 @@ func (g *G) Expr(depth int, cond bool) string {
 		} else {
 			op = g.pick(infixOps[10:])
 		}
-		l, r := g.Expr(depth-1, false), g.Expr(depth-1, false)
-		if op == "" {
-			return l + " " + r
+		if op == "" || op == "+" {
+			// concatenation operands: strings, identifiers, calls
+			l, r := g.concatOperand(depth-1), g.concatOperand(depth-1)
+			if op == "" {
+				return l + " " + r
+			}
+			return l + " + " + r
 		}
+		l, r := g.Expr(depth-1, false), g.Expr(depth-1, false)
 		return l + " " + op + " " + r
+	}
+}
+
+func (g *G) concatOperand(depth int) string {
+	switch g.t.Draw(6) {
+	case 0, 1:
+		return g.StringLit()
+	case 2:
+		return g.pick(headerPool)
+	case 3:
+		if depth > 0 {
+			return g.FuncCall(depth - 1)
+		}
+		return g.pick(headerPool)
+	case 4:
+		if depth > 0 {
+			return "if(" + g.Expr(depth-1, true) + ", " + g.StringLit() + ", " + g.StringLit() + ")"
+		}
+		return g.StringLit()
+	default:
+		return g.pick(headerPool)
 	}
 }
 
@@ -373,7 +399,7 @@ func (g *G) If(depth int) {
 	g.Block(d)
 	n := g.t.Draw(3)
 	for i := 0; i < n; i++ {
-		g.f(" %s (%s) ", g.pick([]string{"else if", "elseif", "elsif", "elif"}), g.Expr(depth, true))
+		g.f(" %s (%s) ", g.pick([]string{"else if", "elseif", "elsif"}), g.Expr(depth, true))
 		g.Block(d)
 	}
 	if g.t.Bool(1, 2) {
@@ -384,7 +410,7 @@ func (g *G) If(depth int) {
 
 func (g *G) Switch(depth int) {
 	g.f("switch (%s) {", g.pick([]string{"req.http.Host", "req.url", "std.tolower(req.http.X-A)", "var.s"}))
-	n := g.t.Draw(4)
+	n := 1 + g.t.Draw(4)
 	hasDefault := false
 	for i := 0; i < n; i++ {
 		g.nl()
@@ -402,7 +428,7 @@ func (g *G) Switch(depth int) {
 			g.Stmt(0)
 		}
 		g.nl()
-		if g.t.Bool(1, 4) {
+		if i+1 < n && g.t.Bool(1, 4) {
 			g.w("fallthrough;")
 		} else {
 			g.w("break;")
